@@ -94,8 +94,27 @@ func (r *Run) Logf(format string, args ...any) {
 	r.mu.Unlock()
 }
 
+// KnownFinding is one entry of /verif/known-findings.txt handed to the worker:
+// a violation with this oracle whose message contains Match is a recorded,
+// genuine defect; it is counted and the run goes on, so that other
+// violations of the same property are still found.
+type KnownFinding struct {
+	Oracle string `json:"oracle"`
+	Match  string `json:"match"`
+	Desc   string `json:"desc"`
+}
+
+var knownFindings []KnownFinding
+
 // Failf records a violation (the first one wins).
 func (r *Run) Failf(oracle, format string, args ...any) {
+	msg := fmt.Sprintf(format, args...)
+	for _, k := range knownFindings {
+		if k.Oracle == oracle && (k.Match == "" || strings.Contains(msg, k.Match)) {
+			r.Count("known-finding:" + k.Desc)
+			return
+		}
+	}
 	r.mu.Lock()
 	if r.viol == nil {
 		r.viol = &Violation{Oracle: oracle, Msg: fmt.Sprintf(format, args...), Step: r.Steps}
